@@ -82,7 +82,8 @@ def encode_value(v: Val):
 
 def build(rng, tree: dict, *, ntables: int = 1, seqs=(3, 7), stale_tables: int = 0, free_prob: float = 0.15, table_order: str = "shuffle",
           extra_object_tables: int = 0, alignment: int = 0x1000, trailer_mode: str = "12", version: int = 0x400, replay_entries: int = 0,
-          stale_same_layout: bool = True, first_table_pages: int = 1, pad_objects: int = 0):
+          stale_same_layout: bool = True, first_table_pages: int = 1, pad_objects: int = 0,
+          inactive_slot: str = "valid"):
     # first_table_pages: room reserved for the first object table at 0x2000 (its length is given by its entry count, not by
     # a fixed page); pad_objects: that many additional unallocated entries, so that a single table can exceed one page
     """Serialise `tree` ({key: Val | dict}) into a HyperVStorage file. -> (bytes, meta)"""
@@ -245,6 +246,24 @@ def build(rng, tree: dict, *, ntables: int = 1, seqs=(3, 7), stale_tables: int =
     total = cursor
     out = bytearray(total)
     h1, h2 = header(seqs[0], version, alignment, replay_off), header(seqs[1], version, alignment, replay_off)
+    if inactive_slot != "valid":
+        # the slot that is not in force was never written (zeros) or holds a torn write / stale garbage: only its sequence
+        # number (kept below the active one) matters for choosing the active header
+        first_active = seqs[0] > seqs[1]
+        act = seqs[0] if first_active else seqs[1]
+        low = rng.randrange(0, act) if act > 0 else 0
+        if first_active or low <= act:
+            junk = bytearray(len(h1)) if inactive_slot == "zero" else bytearray(rng.randrange(256) for _ in range(len(h1)))
+            if inactive_slot == "zero":
+                low = 0
+            struct.pack_into("<H", junk, 8, low if (first_active and low < act) or (not first_active) else 0)
+            if first_active and not (struct.unpack_from("<H", junk, 8)[0] < act):
+                junk = None
+            if junk is not None:
+                if first_active:
+                    h2 = bytes(junk)
+                else:
+                    h1 = bytes(junk)
     out[0 : len(h1)] = h1
     out[0x1000 : 0x1000 + len(h2)] = h2
     out[0x2000 : 0x2000 + len(ot)] = ot
